@@ -176,29 +176,62 @@ class Cache:
         return self._d
 
 
+def _pv_manager(ex, ids, calls, outcomes, sent):
+    connection_manager._CONNECTION_MANAGER = types.SimpleNamespace(api_client=make_api(ex, calls, outcomes), component_graph=None)
+
+    class Sender:
+        async def send(self, m):
+            sent.append(m)
+    mgr = PVManager.__new__(PVManager)
+    mgr._results_sender = Sender()
+    mgr._api_power_request_timeout = timedelta(seconds=5)
+    mgr._pv_inverter_ids = set(ids)
+    mgr._component_pool_status_tracker = types.SimpleNamespace(get_working_components=lambda c: set(c))
+    lows = {}
+    for i in ids:
+        lo = ex.real(f"low{i}")
+        ex.assume(E(lo) <= 0)
+        lows[i] = lo
+    mgr._component_data_caches = {i: Cache(lows[i]) for i in ids}
+    mgr._target_power = Power.zero()
+    return mgr, lows
+
+
+def check_pv_result(ex, res, P, ids, lows, calls, outcomes, tag=""):
+    n = len(ids)
+    calls = [(c, w) for c, w in calls if c in ids]
+    alloc = {c: w for c, w in calls}
+    tol = tolz(E(P))
+    ex.check(sorted(alloc) == sorted(ids) and len(calls) == n, tag + "not exactly one set_power call per addressed inverter")
+    failed = [c for c in ids if outcomes.get(c) != "ok"]
+    fp = sum((E(alloc[c]) for c in failed), z3.RealVal(0))
+    commanded = sum((E(w) for w in alloc.values()), z3.RealVal(0))
+    for c in ids:
+        ex.check(z3.And(E(alloc[c]) <= tol, E(alloc[c]) >= E(lows[c]) - tol), tag + f"inverter {c} commanded outside [its inclusion lower bound, 0]")
+    if failed:
+        ex.check(isinstance(res, PartialFailure), tag + "some call failed but the result is not PartialFailure")
+        if not isinstance(res, PartialFailure):
+            return
+        ex.check(core.zabs(E(res.failed_power.as_watts()) - fp) <= tol, tag + "PV failed_power != sum of the set-points of the failed calls")
+        total = E(res.succeeded_power.as_watts()) + E(res.failed_power.as_watts()) + E(res.excess_power.as_watts())
+        ex.check(set(res.failed_components) == set(failed) and set(res.succeeded_components) == set(ids) - set(failed), tag + "PV component sets wrong")
+    else:
+        ex.check(isinstance(res, Success), tag + "every call succeeded but the result is not Success")
+        if not isinstance(res, Success):
+            return
+        total = E(res.succeeded_power.as_watts()) + E(res.excess_power.as_watts())
+        ex.check(set(res.succeeded_components) == set(ids), tag + "PV succeeded_components != addressed inverters")
+    ex.check(core.zabs(total - E(P)) <= tol, tag + "PV: succeeded + failed + excess != requested power")
+    ex.check(core.zabs(E(res.succeeded_power.as_watts()) - (commanded - fp)) <= tol, tag + "PV: succeeded_power != power commanded by the calls that succeeded")
+    ex.check(core.zabs(E(res.excess_power.as_watts()) - (E(P) - commanded)) <= tol, tag + "PV: excess_power != request minus commanded power")
+
+
 def make_pv(n, reach=False):
     ids = [10 + i for i in range(n)]
 
     def fn(ex):
-        calls, outcomes = [], {}
-        connection_manager._CONNECTION_MANAGER = types.SimpleNamespace(api_client=make_api(ex, calls, outcomes), component_graph=None)
-        sent = []
-
-        class Sender:
-            async def send(self, m):
-                sent.append(m)
-        mgr = PVManager.__new__(PVManager)
-        mgr._results_sender = Sender()
-        mgr._api_power_request_timeout = timedelta(seconds=5)
-        mgr._pv_inverter_ids = set(ids)
-        mgr._component_pool_status_tracker = types.SimpleNamespace(get_working_components=lambda c: set(c))
-        lows = {}
-        for i in ids:
-            lo = ex.real(f"low{i}")
-            ex.assume(E(lo) <= 0)
-            lows[i] = lo
-        mgr._component_data_caches = {i: Cache(lows[i]) for i in ids}
-        mgr._target_power = Power.zero()
+        calls, outcomes, sent = [], {}, []
+        mgr, lows = _pv_manager(ex, ids, calls, outcomes, sent)
         P = ex.real("P")
         ex.assume(E(P) <= 0)
         req = Request(power=Power.from_watts(P), component_ids=set(ids))
@@ -209,31 +242,32 @@ def make_pv(n, reach=False):
         ex.check(len(sent) == 1, f"{len(sent)} results sent for one request")
         if len(sent) != 1:
             return
-        res = sent[0]
-        alloc = {c: w for c, w in calls}
-        tol = tolz(E(P))
-        ex.check(sorted(alloc) == sorted(ids) and len(calls) == n, "not exactly one set_power call per addressed inverter")
-        failed = [c for c in ids if outcomes.get(c) != "ok"]
-        fp = sum((E(alloc[c]) for c in failed), z3.RealVal(0))
-        commanded = sum((E(w) for w in alloc.values()), z3.RealVal(0))
-        for c in ids:
-            ex.check(z3.And(E(alloc[c]) <= tol, E(alloc[c]) >= E(lows[c]) - tol), f"inverter {c} commanded outside [its inclusion lower bound, 0]")
-        if failed:
-            ex.check(isinstance(res, PartialFailure), "some call failed but the result is not PartialFailure")
-            if not isinstance(res, PartialFailure):
-                return
-            ex.check(core.zabs(E(res.failed_power.as_watts()) - fp) <= tol, "PV failed_power != sum of the set-points of the failed calls")
-            total = E(res.succeeded_power.as_watts()) + E(res.failed_power.as_watts()) + E(res.excess_power.as_watts())
-            ex.check(set(res.failed_components) == set(failed) and set(res.succeeded_components) == set(ids) - set(failed), "PV component sets wrong")
-        else:
-            ex.check(isinstance(res, Success), "every call succeeded but the result is not Success")
-            if not isinstance(res, Success):
-                return
-            total = E(res.succeeded_power.as_watts()) + E(res.excess_power.as_watts())
-            ex.check(set(res.succeeded_components) == set(ids), "PV succeeded_components != addressed inverters")
-        ex.check(core.zabs(total - E(P)) <= tol, "PV: succeeded + failed + excess != requested power")
-        ex.check(core.zabs(E(res.succeeded_power.as_watts()) - (commanded - fp)) <= tol, "PV: succeeded_power != power commanded by the calls that succeeded")
-        ex.check(core.zabs(E(res.excess_power.as_watts()) - (E(P) - commanded)) <= tol, "PV: excess_power != request minus commanded power")
+        check_pv_result(ex, sent[0], P, ids, lows, calls, outcomes)
+    return fn
+
+
+def make_pv_overlap(na, nb):
+    """Two requests for disjoint inverter sets on the same PVManager, processed concurrently (the PowerDistributingActor runs
+    requests for different component sets in parallel tasks): each result must account for its own request."""
+    ida, idb = [10 + i for i in range(na)], [20 + i for i in range(nb)]
+
+    def fn(ex):
+        calls, outcomes, sent = [], {}, []
+        mgr, lows = _pv_manager(ex, ida + idb, calls, outcomes, sent)
+        PA, PB = ex.real("PA"), ex.real("PB")
+        ex.assume(z3.And(E(PA) <= 0, E(PB) <= 0))
+        ra = Request(power=Power.from_watts(PA), component_ids=set(ida))
+        rb = Request(power=Power.from_watts(PB), component_ids=set(idb))
+
+        async def both():
+            await asyncio.gather(mgr.distribute_power(ra), mgr.distribute_power(rb))
+        fx.run_loop(both())
+        ex.check(len(sent) == 2, f"{len(sent)} results sent for two requests")
+        for req, P, ids, tag in ((ra, PA, ida, "request A: "), (rb, PB, idb, "request B: ")):
+            mine = [r for r in sent if r.request is req]
+            ex.check(len(mine) == 1, tag + f"{len(mine)} results")
+            if len(mine) == 1:
+                check_pv_result(ex, mine[0], P, ids, lows, calls, outcomes, tag)
     return fn
 
 
@@ -255,11 +289,13 @@ def instances(tier):
         I("battery-full-2x(1x1)-ok", "make_battery_full", (((1, 1), (1, 1)), -1, True), "real distribution, 2 groups, supply, all calls succeed", budget_s=600, **nl),
         I("pv-2", "make_pv", (2,), "2 PV inverters, 6 outcomes per call", budget_s=200, **kw),
         I("pv-3", "make_pv", (3,), "3 PV inverters, 6 outcomes per call", budget_s=400, **kw),
+        I("pv-overlap-1+1", "make_pv_overlap", (1, 1), "2 concurrent requests for disjoint PV inverter sets (1 + 1 inverters), 6 outcomes per call", budget_s=200, **kw),
     ]
     if tier != "quick":
         out += [
             I("battery-full-2x(1x1)+", "make_battery_full", (((1, 1), (1, 1)), 1, False), "real distribution, 2 groups, 6 outcomes per call (budgeted)", budget_s=1200,
               exhaustive=False, **nl),
             I("pv-4", "make_pv", (4,), "4 PV inverters", budget_s=900, exhaustive=False, **kw),
+            I("pv-overlap-2+1", "make_pv_overlap", (2, 1), "2 concurrent requests for disjoint PV inverter sets (2 + 1 inverters)", budget_s=600, exhaustive=False, **kw),
         ]
     return out
